@@ -27,8 +27,8 @@ VOUCHED_TIME_VX = VerusUnit(
         VImpl("impl VouchedTime", [
             f("check_vouched_time", "ensures Ok <=> 0 <= local <= u64::MAX /\\ -59900 <= local - base <= 2990 over the "
                                     "integers (no wrap); no panic, no overflow; all (i128, u64)"),
-            f("check", "ensures Ok <=> voucher vouches for base under BASE_TIME_CHECK /\\ window(ms(local), base), with "
-                       "ms = nanoseconds since the epoch / 10^6 truncated toward zero; uses only the callee contracts"),
+            f("check", "ensures Ok <=> voucher vouches for base under BASE_TIME_CHECK /\\ local is not before the epoch (in nanoseconds) /\\ "
+                       "window(ms(local), base), with ms = floor(nanoseconds since the epoch / 10^6); uses only the callee contracts"),
             f("check_or_die", "requires valid; never panics"),
             f("new", "ensures Ok <=> acceptable(local, base, voucher); Ok(v) => v is valid and stores exactly the arguments; "
                      "the internal check_or_die cannot panic"),
